@@ -471,3 +471,36 @@ Example order_disc_trace_form_ex :
   [/\ canonZ f, get_mult_table b f = Done [:: [:: [:: 1; 0]; [:: 0; 1]]; [:: [:: 0; 1]; [:: 1; 1]]]%Z
     & Round2.order_disc Checked b f = Done 5%Z].
 Proof. by split; vm_compute. Qed.
+
+(** ** seventh wave: [singly_gen_disc] in degree 1
+
+    For a LINEAR minimal polynomial f = c1 x + c0 (c1 <> 0: monic or not), [Algebraic::new] stores theta = -c0 / c1 as a
+    rational constant; [singly_gen] builds the single row "1" and returns the order [[1]] = Z for every c0, c1;
+    [discriminant_with_min_poly] on it returns the value of [discriminant(min_poly)] unchanged (the exponent 2 (deg - 1)
+    is 0); and [discriminant] of a linear polynomial returns 1 with all divisions exact (Res(f, f') = c1, divided by
+    lc f = c1).  So disc Z[theta] = disc f = 1 also in degree 1, both profiles, and nothing panics. *)
+From RNT.Refine Require W7MiscSinglyGenLin.
+
+(** [P] singly_gen_disc_linear: same shape as [singly_gen_disc] / [singly_gen_disc_returns] with n = 1 *)
+Theorem singly_gen_disc_linear (m : mode) (f : list Z) (discf : Z) :
+  length f = 2%N -> List.nth 1 f 0%Z <> 0%Z ->
+  singly_gen f (alg_new f) = Done [:: [:: Q2Qc 1]] /\
+  order_discriminant m discf [:: [:: Q2Qc 1]] f = Done discf.
+Proof. exact (@W7MiscSinglyGenLin.singly_gen_disc_linear m f discf). Qed.
+
+(** [P] singly_gen_disc_linear_wired: with the model's own [discriminant]: the order is Z, disc f = 1 (exactness flag
+    true), and the discriminant of the order is 1 *)
+Theorem singly_gen_disc_linear_wired (m : mode) (f : list Z) :
+  length f = 2%N -> List.nth 1 f 0%Z <> 0%Z ->
+  [/\ singly_gen f (alg_new f) = Done [:: [:: Q2Qc 1]],
+      Resultant.discriminant m f = (true, Done 1%Z)
+    & Round2.order_disc m [:: [:: Q2Qc 1]] f = Done 1%Z].
+Proof. exact (@W7MiscSinglyGenLin.singly_gen_disc_linear_wired m f). Qed.
+
+(** non-vacuity: x + 5 (theta = -5) and 3 x + 5 (theta = -5/3) *)
+Example singly_gen_disc_linear_ex :
+  [/\ Base.omap (List.map this) (Done (alg_new [:: 5; 3]%Z)) = Done [:: (-5 # 3)%Q],
+      Base.omap (List.map (List.map this)) (singly_gen [:: 5; 1]%Z (alg_new [:: 5; 1]%Z)) = Done [:: [:: 1 # 1]]%Q,
+      (do o <- singly_gen [:: 5; 1]%Z (alg_new [:: 5; 1]%Z); Round2.order_disc Checked o [:: 5; 1]%Z) = Done 1%Z
+    & (do o <- singly_gen [:: 5; 3]%Z (alg_new [:: 5; 3]%Z); Round2.order_disc Wrapping o [:: 5; 3]%Z) = Done 1%Z].
+Proof. by split; vm_compute. Qed.
